@@ -4,8 +4,17 @@ import (
 	"fmt"
 	"go/ast"
 	"go/token"
+	"io/fs"
+	"os"
+	"path/filepath"
 	"strings"
+
+	goparser "go/parser"
 )
+
+func goParse(fset *token.FileSet, p string, src []byte) (*ast.File, error) {
+	return goparser.ParseFile(fset, p, src, 0)
+}
 
 // C14: the pool size and index expression of the relayer pick, the MEV trait, the default relay
 // weights, the ORDER of the five relay filters (the per-sender one is stateful, so order matters),
@@ -433,5 +442,70 @@ func extractC14(c *Ctx) error {
 		return fmt.Errorf("UpsertRelayerFee: exactly one validateMultiplicator call expected")
 	}
 	c.Info("max_multiplicator", lit.Value)
+
+	// ---- call-graph query: does anything in production reach the fee-keeping reassignment? ----
+	callers, err := c14ReassignCallers(c.Repo)
+	if err != nil {
+		return err
+	}
+	c.P("(* non-test, non-verif call sites of ReassignOrphanedMessages, and of reassignMessageValidator outside it *)")
+	c.P("Definition reassign_production_callers : list string := %s.", CoqStrList(callers))
+	c.Info("reassign_production_callers", callers)
 	return nil
+}
+
+// c14ReassignCallers scans every non-test, non-verif-hook Go file of the tree (mocks, test utilities
+// and generated docs excluded) for calls of ReassignOrphanedMessages / reassignMessageValidator.
+func c14ReassignCallers(repo string) ([]string, error) {
+	set := map[string]bool{}
+	skipDir := map[string]bool{"mocks": true, "testutil": true, "tests": true, ".git": true, "node_modules": true, "vue": true, "docs": true, "proto": true}
+	fset := token.NewFileSet()
+	err := filepath.WalkDir(repo, func(p string, d fs.DirEntry, err error) error {
+		if err != nil {
+			return err
+		}
+		if d.IsDir() {
+			if skipDir[d.Name()] {
+				return filepath.SkipDir
+			}
+			return nil
+		}
+		n := d.Name()
+		if !strings.HasSuffix(n, ".go") || strings.HasSuffix(n, "_test.go") || strings.HasPrefix(n, "verif_hooks") {
+			return nil
+		}
+		src, err := os.ReadFile(p)
+		if err != nil {
+			return err
+		}
+		if !strings.Contains(string(src), "ReassignOrphanedMessages") && !strings.Contains(string(src), "reassignMessageValidator") {
+			return nil
+		}
+		if strings.HasPrefix(strings.TrimSpace(string(src)), "//go:build verif") {
+			return nil
+		}
+		f, err := goParse(fset, p, src)
+		if err != nil {
+			return err
+		}
+		rel, _ := filepath.Rel(repo, p)
+		for _, dcl := range f.Decls {
+			fd, ok := dcl.(*ast.FuncDecl)
+			if !ok || fd.Body == nil {
+				continue
+			}
+			who := rel + ":" + fd.Name.Name
+			if len(Calls(fd.Body, "ReassignOrphanedMessages")) > 0 {
+				set[who+" -> ReassignOrphanedMessages"] = true
+			}
+			if fd.Name.Name != "ReassignOrphanedMessages" && len(Calls(fd.Body, "reassignMessageValidator")) > 0 {
+				set[who+" -> reassignMessageValidator"] = true
+			}
+		}
+		return nil
+	})
+	if err != nil {
+		return nil, err
+	}
+	return SortedSet(set), nil
 }
